@@ -137,11 +137,19 @@ def gen_project(rng, idx):
     """an abstract project: config + per (ns, locale) a key tree whose leaves are source items / null"""
     locales = ["en", "fr", "de"][:rng.choice([1, 2, 3, 3])]
     inherits = {}
-    if len(locales) >= 2 and rng.random() < 0.5:
+    middle = None
+    if len(locales) >= 2 and rng.random() < 0.6:
         locales.append("fr-CA")
         inherits["fr-CA"] = "fr" if "fr" in locales else "en"
         if rng.random() < 0.2 and "de" in locales:
             inherits["de"] = "fr"
+        if rng.random() < 0.6:
+            # a chain of depth two: fr-BE -> fr-CA -> fr; the middle locale may leave keys absent (not only null)
+            locales.append("fr-BE")
+            inherits["fr-BE"] = "fr-CA"
+            middle = "fr-CA"
+            if rng.random() < 0.15:
+                inherits["fr"] = "fr-BE"      # a cycle: the walk must stop and fall back to the default
     nss = [None] if rng.random() < 0.7 else ["common", "home"]
     # key shapes (same in every locale): flat keys and one group
     shapes = {}
@@ -161,21 +169,29 @@ def gen_project(rng, idx):
     for ns, p in allpaths:
         targets = [kp for kp in allpaths if rank[kp] > rank[(ns, p)]]
         for li, l in enumerate(locales):
-            if l != "en" and rng.random() < (0.35 if l in inherits else 0.12):
+            if l == middle:
+                r = rng.random()
+                if r < 0.3 and len(p) == 1:
+                    src[(ns, l, p)] = "absent"    # not written at all in the middle locale of the chain (flat keys only)
+                elif r < 0.6:
+                    src[(ns, l, p)] = None
+                else:
+                    src[(ns, l, p)] = gen_items(rng, [])     # no reference from the middle locale: an absent target would be an error
+            elif l != "en" and rng.random() < (0.35 if l in inherits else 0.12):
                 src[(ns, l, p)] = None            # explicit null
             else:
                 src[(ns, l, p)] = gen_items(rng, targets)
     if bad:
         victim = order[0]
         l = rng.choice(locales)
-        if src[(victim[0], l, victim[1])] is None:
+        if src[(victim[0], l, victim[1])] is None or src[(victim[0], l, victim[1])] == "absent" or l == middle:
             l = "en"
         if bad_kind == "self":
             src[(victim[0], l, victim[1])] = [("T", "s"), ("R", victim[0], list(victim[1]), [])]
             expect = E_RECURSIVE
         elif bad_kind == "cycle" and len(order) >= 3:
             k2 = order[1]
-            if src[(k2[0], l, k2[1])] is None:
+            if src[(k2[0], l, k2[1])] is None or src[(k2[0], l, k2[1])] == "absent":
                 l = "en"
             src[(victim[0], l, victim[1])] = [("R", k2[0], list(k2[1]), [])]
             src[(k2[0], l, k2[1])] = [("T", "x"), ("R", victim[0], list(victim[1]), [])]
@@ -204,6 +220,8 @@ def tree_of(proj, ns, l, rng):
     rng.shuffle(paths)
     for p in paths:
         v = proj["src"][(ns, l, p)]
+        if v == "absent":
+            continue
         leaf = None if v is None else print_items(v)
         if len(p) == 1:
             tree[p[0]] = leaf
@@ -318,7 +336,7 @@ def run(ctx):
         if expect == "any_error":
             expect = 0      # the implementation accepted a project that must be rejected
         srcs = ["(%s, %s, %s, %s)" % (core.coq_opt(ns, core.coq_str), core.coq_str(l), core.coq_list(core.coq_str(x) for x in path),
-                                     "None" if v is None else "(Some %s)" % coq_xitems(v)) for (ns, l, path), v in p["src"].items()]
+                                     "None" if v is None else "(Some %s)" % coq_xitems(v)) for (ns, l, path), v in p["src"].items() if v != "absent"]
         fl = ["(%s, %s, %s)" % (core.coq_opt(ns, core.coq_str), core.coq_str(l),
                                core.coq_list("(%s, %s)" % (core.coq_str(k), coq_jnode(x)) for k, x in tree.items())) for ns, l, tree in files]
         items.append("(mk_fcase %s %s %s %s %s %s)" % (
@@ -344,7 +362,7 @@ def run(ctx):
         hist[k] = hist.get(k, 0) + 1
     nontrivial = set()
     for p, m in zip(projs, meta):
-        if sum(len(refs_of(v)) for v in p["src"].values() if v) >= 2:
+        if sum(len(refs_of(v)) for v in p["src"].values() if v and v != "absent") >= 2:
             nontrivial.add(json.dumps(m["files"], sort_keys=True, ensure_ascii=False))
     core.write_evidence(ctx, {
         "evaluations": len(meta) + len(panics), "distinct_nontrivial": len(nontrivial),
